@@ -4,7 +4,8 @@
    (Model/Binder.v, tied to the code by the correspondence run); O ranges over every behaviour of the
    library oracles (format registry, UnmarshalText of registered formats, strconv.ParseFloat); valid is the
    verdict of the validate library on the bound value (None = accepted). *)
-From V Require Import Bytes Decimal Binder BinderSpec DecimalProofs BinderProofs BinderClauses.
+From V Require Import Bytes Decimal Binder BinderSpec DecimalProofs BinderProofs BinderClauses BinderMulti.
+From Coq Require Import Permutation.
 Local Open Scope nat_scope.
 
 (* strconv.ParseInt(s, 10, 64), as the binder calls it, accepts exactly the base-10 literals (optional sign,
@@ -186,3 +187,23 @@ Theorem C03_model_meets_spec : forall O d rq valid, request_wf rq = true -> gtyp
   bind_param O d rq valid = spec_outcome O d rq valid.
 Proof. exact bind_param_meets_spec. Qed.
 Print Assumptions C03_model_meets_spec.
+
+(* several parameters of one request (the loop of UntypedRequestBinder.Bind, Binder.bind_request; ps = the declared
+   parameters in the order the Go map hands them out, each with the verdict of its validator): the composite 422
+   error names exactly the parameters that are rejected when judged one by one -- by a failing declared validation
+   as well as by a type or required error, whatever happened to the parameters visited before -- and when none is
+   rejected the handler runs *)
+Theorem C03_every_rejected_parameter_named : forall O ps rq,
+  (forall p, In p ps -> decl_wf O (fst p) = true) ->
+  (rejected_names (fun d valid => bind_param O d rq valid) ps = [] /\
+   exists vs, bind_request O ps rq = AllBound vs) \/
+  (rejected_names (fun d valid => bind_param O d rq valid) ps <> [] /\
+   bind_request O ps rq = Rejected (rejected_names (fun d valid => bind_param O d rq valid) ps)).
+Proof. exact every_rejected_parameter_named. Qed.
+Print Assumptions C03_every_rejected_parameter_named.
+
+(* ... and that set of names is the same for every iteration order of the map *)
+Theorem C03_rejected_names_any_order : forall judge ps ps', Permutation ps ps' ->
+  forall n, In n (rejected_names judge ps) <-> In n (rejected_names judge ps').
+Proof. exact rejected_names_any_order. Qed.
+Print Assumptions C03_rejected_names_any_order.
